@@ -272,21 +272,35 @@ def judge(case):
                 return "call %d: keyword arguments were not refused with ValueError (got %s: %s)" % (ci, type(e).__name__, e), info
             return "call %d: keyword arguments were accepted" % ci, info
         g = call.get("guard")
+        defaults = call.get("defaults")
+        if defaults:
+            # the function has trailing parameters with default values which the caller leaves alone: they are no arguments of
+            # the call - they reach the body as the very objects of the definition and nothing about them becomes public
+            names = ["a%d" % i for i in range(len(args))]
+            scope = {"_tb": traced_body, "_D": defaults, "_seen": captured}
+            exec("def f(%s):\n    _seen['defaults'] = [%s]\n    return _tb(%s)\n" % (
+                ", ".join(names + ["d%d=_D[%d]" % (j, j) for j in range(len(defaults))]),
+                ", ".join("d%d" % j for j in range(len(defaults))), ", ".join(names)), scope)
+            fn = scope["f"]
+        else:
+            fn = traced_body
         try:
             if g is None:
-                got = rt.snark(traced_body)(*args)
+                got = rt.snark(fn)(*args)
             else:
                 # the call sits in a region guarded by a secret condition: what becomes public cannot depend on its value
                 box = {}
 
                 def region():
-                    box["got"] = rt.snark(traced_body)(*args)
+                    box["got"] = rt.snark(fn)(*args)
                     return rt.PrivVal(0)
                 rt.guarded(rt.PrivVal(g))(region)()
                 got = box["got"]
                 n0 += 1          # the condition itself is a private value
         except Exception as e:
             return "call %d raised %s: %s" % (ci, type(e).__name__, e), info
+        if defaults and not (len(captured.get("defaults", ())) == len(defaults) and all(x is y for x, y in zip(captured["defaults"], defaults))):
+            return "call %d: the default values %r of parameters the caller left alone reached the function as %r" % (ci, defaults, captured.get("defaults")), info
         if g != 0 and not plain_equal(got, expected_plain):       # inside a dead region the values are don't-cares
             return "call %d returned %r, the undecorated function returns %r" % (ci, got, expected_plain), info
         # expected public values
@@ -356,6 +370,8 @@ def shard(seed, n_examples):
             leaves = list(numeric_leaves(["tuple", resolve_same(args)]))
             calls.append({"args": args, "result": draw_result(draw, leaves), "kwargs": draw(st.integers(0, 9)) == 0,
                           "guard": draw(st.sampled_from([None, None, None, 0, 1]))})
+            if not calls[-1]["kwargs"] and draw(st.integers(0, 3)) == 0:
+                calls[-1]["defaults"] = draw(st.lists(st.sampled_from([5, 2.5, True, [1, 2], {"k": 3}, None, "s", 0]), min_size=1, max_size=2))
         case = {"p": draw(st.sampled_from(sorted(REAL_FIELDS))), "calls": calls}
         msg, info = judge(case)
         nt = bool(info.get("mixed")) or (len(calls) >= 2 and info.get("out", 0) >= 1)
@@ -364,6 +380,8 @@ def shard(seed, n_examples):
             labels.append("mixed-types")
         if any(c["kwargs"] for c in calls):
             labels.append("kwargs")
+        if any(c.get("defaults") for c in calls):
+            labels.append("default-parameters-left-alone")
         for c in calls:
             if c.get("guard") is not None:
                 labels.append("call-under-guard:%d" % c["guard"])
